@@ -1,0 +1,256 @@
+//go:build verif
+
+// Contracts for package bgp, part 2: C05 tier B. Built only with -tags verif.
+//
+// Decoders of the less common attributes, TLVs and NLRI families, checked WITHOUT annotations: for each function
+// below the generator emits every slice-bounds, index, division and make obligation of the real body, with
+// calls to functions that have no contract replaced by arbitrary results and arbitrary effects (a sound
+// over-approximation). A function is listed here only if all of those obligations are discharged; the TLV
+// header decoders carry a real postcondition (the value they return has exactly the announced length), which
+// the per-type decoders rely on. nil-dereference and type-assertion obligations are not claimed (they depend on
+// how the TLV objects were constructed).
+package bgp
+
+//@ props C05
+//@ func malformedAttrListErr
+//@   modifies nothing
+//@   ensures freshMsgErr(result)
+//@ func (*LsTLV).Len
+//@   inline
+//@ func (*SubTLV).Len
+//@   inline
+//@ func (*SubSubTLV).Len
+//@   inline
+//@ func (*TLV).Len
+//@   inline
+//@ func (*LsNLRI).Len
+//@   inline
+//@ func (*TunnelEncapSubTLV).Len
+//@   inline
+//@ func (*EVPNEthernetAutoDiscoveryRoute).DecodeFromBytes
+//@   claims bounds div0 make
+//@ func (*EVPNEthernetSegmentRoute).DecodeFromBytes
+//@   claims bounds div0 make
+//@ func (*EVPNIPMSIRoute).DecodeFromBytes
+//@   claims bounds div0 make
+//@ func (*EVPNIPPrefixRoute).DecodeFromBytes
+//@   claims bounds div0 make
+//@ func (*EVPNMacIPAdvertisementRoute).DecodeFromBytes
+//@   claims bounds div0 make
+//@ func (*EVPNMulticastEthernetTagRoute).DecodeFromBytes
+//@   claims bounds div0 make
+//@ func (*EncapNLRI).decodeFromBytes
+//@   claims bounds div0 make
+//@ func (*FlowSpecComponent).DecodeFromBytes
+//@   claims bounds div0 make
+//@ func (*FlowSpecUnknown).DecodeFromBytes
+//@   claims bounds div0 make
+//@ func (*LsAddrPrefix).decodeFromBytes
+//@   claims bounds div0 make
+//@ func (*LsNLRI).DecodeFromBytes
+//@   modifies l.*
+//@   ensures result == nil ==> len(data) >= 9
+//@ func (*LsNodeNLRI).DecodeFromBytes
+//@   claims bounds div0 make
+//@ func (*LsPrefixDescriptor).ParseTLVs
+//@   claims bounds div0 make
+//@ func (*LsTLV).DecodeFromBytes
+//@   modifies l.*
+//@   ensures result1 == nil ==> len(result0) == int(l.Length) && len(data) >= int(l.Length) + 4
+//@ func (*LsTLVAdminGroup).DecodeFromBytes
+//@   claims bounds div0 make
+//@ func (*LsTLVAutonomousSystem).DecodeFromBytes
+//@   claims bounds div0 make
+//@ func (*LsTLVBgpConfederationMember).DecodeFromBytes
+//@   claims bounds div0 make
+//@ func (*LsTLVBgpLsID).DecodeFromBytes
+//@   claims bounds div0 make
+//@ func (*LsTLVBgpRouterID).DecodeFromBytes
+//@   claims bounds div0 make
+//@ func (*LsTLVFADPrefixMetric).DecodeFromBytes
+//@   claims bounds div0 make
+//@ func (*LsTLVFlexAlgoDef).DecodeFromBytes
+//@   claims bounds div0 make
+//@ func (*LsTLVIGPFlags).DecodeFromBytes
+//@   claims bounds div0 make
+//@ func (*LsTLVIGPMetric).DecodeFromBytes
+//@   claims bounds div0 make
+//@ func (*LsTLVIPReachability).DecodeFromBytes
+//@   claims bounds div0 make
+//@ func (*LsTLVIPv4InterfaceAddr).DecodeFromBytes
+//@   claims bounds div0 make
+//@ func (*LsTLVIPv4NeighborAddr).DecodeFromBytes
+//@   claims bounds div0 make
+//@ func (*LsTLVIPv6InterfaceAddr).DecodeFromBytes
+//@   claims bounds div0 make
+//@ func (*LsTLVIPv6NeighborAddr).DecodeFromBytes
+//@   claims bounds div0 make
+//@ func (*LsTLVIgpRouterID).DecodeFromBytes
+//@   claims bounds div0 make
+//@ func (*LsTLVIsisArea).DecodeFromBytes
+//@   claims bounds div0 make
+//@ func (*LsTLVLinkID).DecodeFromBytes
+//@   claims bounds div0 make
+//@ func (*LsTLVLinkName).DecodeFromBytes
+//@   claims bounds div0 make
+//@ func (*LsTLVLocalIPv4RouterID).DecodeFromBytes
+//@   claims bounds div0 make
+//@ func (*LsTLVLocalIPv6RouterID).DecodeFromBytes
+//@   claims bounds div0 make
+//@ func (*LsTLVMaxLinkBw).DecodeFromBytes
+//@   claims bounds div0 make
+//@ func (*LsTLVMaxReservableLinkBw).DecodeFromBytes
+//@   claims bounds div0 make
+//@ func (*LsTLVMinMaxUnidirectionalLinkDelay).DecodeFromBytes
+//@   claims bounds div0 make
+//@ func (*LsTLVMultiTopoID).DecodeFromBytes
+//@   claims bounds div0 make
+//@ func (*LsTLVNodeFlagBits).DecodeFromBytes
+//@   claims bounds div0 make
+//@ func (*LsTLVNodeName).DecodeFromBytes
+//@   claims bounds div0 make
+//@ func (*LsTLVOpaqueLinkAttr).DecodeFromBytes
+//@   claims bounds div0 make
+//@ func (*LsTLVOpaqueNodeAttr).DecodeFromBytes
+//@   claims bounds div0 make
+//@ func (*LsTLVOpaquePrefixAttr).DecodeFromBytes
+//@   claims bounds div0 make
+//@ func (*LsTLVOspfAreaID).DecodeFromBytes
+//@   claims bounds div0 make
+//@ func (*LsTLVOspfRouteType).DecodeFromBytes
+//@   claims bounds div0 make
+//@ func (*LsTLVRemoteIPv4RouterID).DecodeFromBytes
+//@   claims bounds div0 make
+//@ func (*LsTLVRemoteIPv6RouterID).DecodeFromBytes
+//@   claims bounds div0 make
+//@ func (*LsTLVSourceRouterID).DecodeFromBytes
+//@   claims bounds div0 make
+//@ func (*LsTLVSrAlgorithm).DecodeFromBytes
+//@   claims bounds div0 make
+//@ func (*LsTLVSrv6BgpPeerNodeSID).DecodeFromBytes
+//@   claims bounds div0 make
+//@ func (*LsTLVSrv6EndXSID).DecodeFromBytes
+//@   claims bounds div0 make
+//@ func (*LsTLVSrv6EndXSID).parseSubTLVs
+//@   claims bounds div0 make
+//@ func (*LsTLVSrv6EndpointBehavior).DecodeFromBytes
+//@   claims bounds div0 make
+//@ func (*LsTLVSrv6SIDStructure).DecodeFromBytes
+//@   claims bounds div0 make
+//@ func (*LsTLVTEDefaultMetric).DecodeFromBytes
+//@   claims bounds div0 make
+//@ func (*LsTLVUnidirectionalDelayVariation).DecodeFromBytes
+//@   claims bounds div0 make
+//@ func (*LsTLVUnidirectionalLinkDelay).DecodeFromBytes
+//@   claims bounds div0 make
+//@ func (*MUPDirectSegmentDiscoveryRoute).DecodeFromBytes
+//@   claims bounds div0 make
+//@ func (*MUPInterworkEndpointTLV).DecodeFromBytes
+//@   claims bounds div0 make
+//@ func (*MUPInterworkSegmentDiscoveryRoute).DecodeFromBytes
+//@   claims bounds div0 make
+//@ func (*MUPSessionParametersTLV).DecodeFromBytes
+//@   claims bounds div0 make
+//@ func (*MUPSourceAddressTLV).DecodeFromBytes
+//@   claims bounds div0 make
+//@ func (*MUPType1SessionTransformedRoute).DecodeFromBytes
+//@   claims bounds div0 make
+//@ func (*MUPType2SessionTransformedRoute).DecodeFromBytes
+//@   claims bounds div0 make
+//@ func (*MUPUnknownTLV).DecodeFromBytes
+//@   claims bounds div0 make
+//@ func (*OpaqueNLRI).decodeFromBytes
+//@   claims bounds div0 make
+//@ func (*PathAttributeAigp).DecodeFromBytes
+//@   claims bounds div0 make
+//@ func (*PathAttributeIP6ExtendedCommunities).DecodeFromBytes
+//@   claims bounds div0 make
+//@ func (*PathAttributePmsiTunnel).DecodeFromBytes
+//@   claims bounds div0 make
+//@ func (*RouteDistinguisherFourOctetAS).DecodeFromBytes
+//@   claims bounds div0 make
+//@ func (*RouteDistinguisherIPAddressAS).DecodeFromBytes
+//@   claims bounds div0 make
+//@ func (*RouteDistinguisherTwoOctetAS).DecodeFromBytes
+//@   claims bounds div0 make
+//@ func (*RouteDistinguisherUnknown).DecodeFromBytes
+//@   claims bounds div0 make
+//@ func (*RouteTargetMembershipNLRI).decodeFromBytes
+//@   claims bounds div0 make
+//@ func (*SRPolicyNLRI).decodeFromBytes
+//@   claims bounds div0 make
+//@ func (*SRv6EndpointBehaviorStructure).DecodeFromBytes
+//@   claims bounds div0 make
+//@ func (*SRv6L3ServiceAttribute).DecodeFromBytes
+//@   claims bounds div0 make
+//@ func (*SRv6SIDStructureSubSubTLV).DecodeFromBytes
+//@   claims bounds div0 make
+//@ func (*SRv6ServiceTLV).DecodeFromBytes
+//@   claims bounds div0 make
+//@ func (*SegmentListWeight).DecodeFromBytes
+//@   claims bounds div0 make
+//@ func (*SegmentTypeA).DecodeFromBytes
+//@   claims bounds div0 make
+//@ func (*SegmentTypeB).DecodeFromBytes
+//@   claims bounds div0 make
+//@ func (*SubSubTLV).DecodeFromBytes
+//@   modifies s.*
+//@   ensures result1 == nil ==> len(result0) == int(s.Length) && len(data) >= int(s.Length) + 3
+//@ func (*TLV).DecodeFromBytes
+//@   modifies t.*
+//@   ensures result1 == nil ==> len(result0) == int(t.Length) && len(data) >= int(t.Length) + 3
+//@ func (*TunnelEncapSubTLV).DecodeFromBytes
+//@   modifies t.*
+//@   ensures err == nil ==> len(value) == int(t.Length) && len(data) >= int(t.Length) + 2
+//@ func (*TunnelEncapSubTLVColor).DecodeFromBytes
+//@   claims bounds div0 make
+//@ func (*TunnelEncapSubTLVEgressEndpoint).DecodeFromBytes
+//@   claims bounds div0 make
+//@ func (*TunnelEncapSubTLVEncapsulation).DecodeFromBytes
+//@   claims bounds div0 make
+//@ func (*TunnelEncapSubTLVProtocol).DecodeFromBytes
+//@   claims bounds div0 make
+//@ func (*TunnelEncapSubTLVSRBSID).DecodeFromBytes
+//@   claims bounds div0 make
+//@ func (*TunnelEncapSubTLVSRCandidatePathName).DecodeFromBytes
+//@   claims bounds div0 make
+//@ func (*TunnelEncapSubTLVSRENLP).DecodeFromBytes
+//@   claims bounds div0 make
+//@ func (*TunnelEncapSubTLVSRPreference).DecodeFromBytes
+//@   claims bounds div0 make
+//@ func (*TunnelEncapSubTLVSRPriority).DecodeFromBytes
+//@   claims bounds div0 make
+//@ func (*TunnelEncapSubTLVSRv6BSID).DecodeFromBytes
+//@   claims bounds div0 make
+//@ func (*TunnelEncapSubTLVUDPDestPort).DecodeFromBytes
+//@   claims bounds div0 make
+//@ func (*TunnelEncapSubTLVUnknown).DecodeFromBytes
+//@   claims bounds div0 make
+//@ func (*VPLSNLRI).decodeFromBytes
+//@   claims bounds div0 make
+//@ func (*flowSpecMac).DecodeFromBytes
+//@   claims bounds div0 make
+//@ func (*flowSpecPrefix).DecodeFromBytes
+//@   claims bounds div0 make
+//@ func (*flowSpecPrefix6).DecodeFromBytes
+//@   claims bounds div0 make
+//@ func ParseAs4Value
+//@   claims bounds div0 make
+//@ func ParseBGPBody
+//@   claims bounds div0 make
+//@ func ParseIP6Extended
+//@   claims bounds div0 make
+//@ func ParseMPLSLabelStack
+//@   claims bounds div0 make
+//@ func ParseRTCPrefix
+//@   claims bounds div0 make
+//@ func ParseRouteTarget
+//@   claims bounds div0 make
+//@ func ParseVPNPrefix
+//@   claims bounds div0 make
+//@ func parseIGPRouterID
+//@   claims bounds div0 make
+//@ func parseMUPTLVs
+//@   claims bounds div0 make
+//@ func parseRdAndRt
+//@   claims bounds div0 make
